@@ -17,7 +17,7 @@ int main(int argc, char** argv)
 {
 	Ctx c = parseArgs(argc, argv);
 	Rng rng(c.seed * 0x1000 + 0x105);
-	Budget b = c.thorough ? Budget{ 60, 200, 300 } : Budget{ 8, 150, 220 };
+	Budget b = c.thorough ? Budget{ 1000, 220, 300 } : Budget{ 40, 200, 260 };
 #if !defined(C05_PART) || C05_PART == 1
 	runConfig<SegAdapter<Seg<cnst, 0, std::string, MM00>>>(c, rng, "s_cnst0_string", "Allocate-only manager", b);
 	runConfig<SegAdapter<Seg<cnst, 1, std::string, MM00>>>(c, rng, "s_cnst1_string", "Allocate-only manager", b);
